@@ -789,6 +789,13 @@ pub const CPU_CASE_LIMIT_MS: u64 = 2000;
 /// the reserved 256 MB stack of the measuring thread).
 pub const MEMORY_CAP_BYTES: u64 = 6 << 30;
 
+/// Budget of the second virtual clock (heap allocations inside the call), from the token count.
+/// The unchanged tree allocates at most ~300 times per token plus ~10 000; the budget leaves room
+/// for a quadratic term and two orders of magnitude at small sizes.
+pub fn allocation_budget(tokens: u64) -> u64 {
+    4 * tokens * tokens + 400 * tokens + 2_000_000
+}
+
 pub fn budget(src: &str) -> u64 {
     let l = token_count(src);
     4 * l * l + 10_000
@@ -832,6 +839,9 @@ pub struct Measured {
     pub dominant_site: String,
     pub outcome: String,
     pub cpu_ms: u64,
+    /// heap allocations made inside the call: a second virtual clock, for code without hooks
+    #[serde(default)]
+    pub allocations: u64,
 }
 
 fn cpu_ms() -> u64 {
@@ -887,11 +897,25 @@ pub fn measure(src: &str, validate: bool) -> Measured {
             // under any of them.
             let mut options = options_for(&src2);
             options.validate = validate;
+            let allocations = Arc::new(std::sync::atomic::AtomicU64::new(0));
+            {
+                let allocations = allocations.clone();
+                crate::seams::set_alloc_hook(
+                    1,
+                    Some(Box::new(move || {
+                        allocations.fetch_add(1, std::sync::atomic::Ordering::Relaxed);
+                    })),
+                );
+            }
             let t0 = cpu_ms();
+            crate::seams::set_alloc_points_active(true);
             let result = std::panic::catch_unwind(std::panic::AssertUnwindSafe(|| {
                 corpus::run_job(&src2, None, options)
             }));
+            crate::seams::set_alloc_points_active(false);
             let cpu = cpu_ms().saturating_sub(t0);
+            crate::seams::set_alloc_hook(0, None);
+            let allocations = allocations.load(std::sync::atomic::Ordering::Relaxed);
             verif_hooks::install(None);
             let (exceeded, outcome) = match result {
                 Ok(o) => (false, o.class().to_string() + &match &o {
@@ -911,10 +935,16 @@ pub fn measure(src: &str, validate: bool) -> Measured {
                 .max_by_key(|(_, n)| *n)
                 .map(|(s, _)| s.to_string())
                 .unwrap_or_default();
-            (backend.ticks.get(), exceeded, outcome, dominant, cpu)
+            (backend.ticks.get(), exceeded, outcome, dominant, cpu, allocations)
         })
         .expect("spawn measure thread");
-    let (ticks, exceeded, outcome, dominant_site, cpu) = handle.join().expect("measure thread");
+    let (ticks, mut exceeded, outcome, mut dominant_site, cpu, allocations) = handle.join().expect("measure thread");
+    if !exceeded && allocations > allocation_budget(token_count(&src)) {
+        // the call came back, but only after a number of heap allocations no low-degree polynomial
+        // in its size explains: code without hooks has a clock too
+        exceeded = true;
+        dominant_site = "heap_allocations".to_string();
+    }
     Measured {
         ticks,
         budget: b,
@@ -923,6 +953,7 @@ pub fn measure(src: &str, validate: bool) -> Measured {
         dominant_site,
         outcome,
         cpu_ms: cpu,
+        allocations,
     }
 }
 
@@ -1459,6 +1490,7 @@ pub fn main(tier: Tier) -> i32 {
             "property": "C20", "seed": seed, "run": r.index, "failure_class": class, "trigger": trigger,
             "family": min, "validate": r.validate, "source": src,
             "budget_ticks": m.budget, "tokens": m.tokens, "ticks_when_aborted": m.ticks,
+            "heap_allocations": m.allocations, "budget_heap_allocations": allocation_budget(m.tokens),
             "dominant_site": m.dominant_site,
             "minimised_from": {"family": r.family, "depth": r.family.depth()},
         });
@@ -1480,10 +1512,17 @@ pub fn main(tier: Tier) -> i32 {
             }
         }
         violations += 1;
-        lines.push(format!(
-            "C20 violation: {class} [{trigger}] depth {} ({} tokens): more than {} ticks (budget 4*L^2+10000), dominant site {}",
-            min.depth(), m.tokens, m.budget, m.dominant_site
-        ));
+        if m.dominant_site == "heap_allocations" {
+            lines.push(format!(
+                "C20 violation: {class} [{trigger}] depth {} ({} tokens): {} heap allocations inside the call (budget 4*L^2+400*L+2000000 = {})",
+                min.depth(), m.tokens, m.allocations, allocation_budget(m.tokens)
+            ));
+        } else {
+            lines.push(format!(
+                "C20 violation: {class} [{trigger}] depth {} ({} tokens): more than {} ticks (budget 4*L^2+10000), dominant site {}",
+                min.depth(), m.tokens, m.budget, m.dominant_site
+            ));
+        }
         lines.push(format!("VIOLATION property=C20 replay={}", path.display()));
     }
     let mut cpu_seen = HashSet::new();
@@ -1524,6 +1563,7 @@ pub fn main(tier: Tier) -> i32 {
     let wall = start.elapsed().as_secs_f64();
     let mut shapes = HashSet::new();
     let mut by_family: BTreeMap<String, (u64, u64, u64, f64, u64)> = BTreeMap::new(); // n, max ticks, max depth, max ticks/budget, max cpu
+    let mut alloc_by_family: BTreeMap<String, (u64, f64, f64)> = BTreeMap::new(); // max allocations, max per token, max / allocation budget
     let mut outcomes: BTreeMap<String, u64> = BTreeMap::new();
     let mut total_ticks = 0u64;
     let mut growth: BTreeMap<String, Vec<(u32, u64, u64)>> = BTreeMap::new();
@@ -1538,6 +1578,10 @@ pub fn main(tier: Tier) -> i32 {
         e.2 = e.2.max(r.family.depth() as u64);
         e.3 = e.3.max(r.measured.ticks as f64 / r.measured.budget as f64);
         e.4 = e.4.max(r.measured.cpu_ms);
+        let a = alloc_by_family.entry(r.family.name().to_string()).or_insert((0, 0.0, 0.0));
+        a.0 = a.0.max(r.measured.allocations);
+        a.1 = a.1.max(r.measured.allocations as f64 / r.measured.tokens.max(1) as f64);
+        a.2 = a.2.max(r.measured.allocations as f64 / allocation_budget(r.measured.tokens) as f64);
         let key: String = r.measured.outcome.split(':').next().unwrap_or("").to_string();
         *outcomes.entry(key).or_default() += 1;
         if (r.index as usize) < systematic_families().len() * 2 && !r.validate {
@@ -1552,7 +1596,10 @@ pub fn main(tier: Tier) -> i32 {
         .map(|(k, v)| {
             (
                 k.clone(),
-                json!({"cases": v.0, "max_ticks": v.1, "max_depth": v.2, "max_ticks_over_budget": (v.3 * 10000.0).round() / 10000.0, "max_cpu_ms": v.4}),
+                json!({"cases": v.0, "max_ticks": v.1, "max_depth": v.2, "max_ticks_over_budget": (v.3 * 10000.0).round() / 10000.0, "max_cpu_ms": v.4,
+                    "max_allocations": alloc_by_family[k].0,
+                    "max_allocations_per_token": (alloc_by_family[k].1 * 10.0).round() / 10.0,
+                    "max_allocations_over_budget": (alloc_by_family[k].2 * 10000.0).round() / 10000.0}),
             )
         })
         .collect();
@@ -1666,8 +1713,8 @@ pub fn replay(path: &str, doc: &serde_json::Value) -> i32 {
     }
     let m = measure(src, validate);
     println!(
-        "tokens={} budget={} ticks={} exceeded={} dominant_site={} outcome={} cpu_ms={}",
-        m.tokens, m.budget, m.ticks, m.exceeded, m.dominant_site, m.outcome, m.cpu_ms
+        "tokens={} budget={} ticks={} allocations={} exceeded={} dominant_site={} outcome={} cpu_ms={}",
+        m.tokens, m.budget, m.ticks, m.allocations, m.exceeded, m.dominant_site, m.outcome, m.cpu_ms
     );
     if m.exceeded {
         let class = failure_class(&m);
